@@ -28,7 +28,7 @@ REPLAY_DIR = os.path.join(OUT, "replays")
 KNOWN_FINDINGS = os.path.join(VERIF, "known_findings.json")
 
 MAX_SAMPLES = 8
-MAX_VIOLATION_LINES = 25
+MAX_VIOLATION_LINES = int(os.environ.get("VERIF_MAX_LINES", "25"))
 
 
 class HarnessError(Exception):
@@ -70,6 +70,7 @@ class Partial:
         self.violations = []  # (signature, what, replay)
         self.samples = []
         self.outcomes = {}  # op name -> set of outcome labels (vacuity report)
+        self.results = []  # free-form per-item results handed back to the parent (explorer)
 
     # -- counters ---------------------------------------------------------------------------
     def count(self, key, n=1):
@@ -114,6 +115,7 @@ class Partial:
         for s in other.samples:
             if len(self.samples) < MAX_SAMPLES:
                 self.samples.append(s)
+        self.results.extend(other.results)
 
 
 class Ctx(Partial):
